@@ -123,10 +123,11 @@ TEXT.update({
   "note": "float values, DS/IS from binary values, non-default character sets, whole files and deflated syntaxes are outside; the earlier Kani harnesses for the writer ran out of memory (30 GB) and were removed",
  },
  "C05": {
-  "engine": "K",
-  "technique": "bounded model checking (Kani/CBMC): Kani's panic / overflow / bounds checks and unwinding assertions on parsers and decoders fed every byte string of the listed sizes",
-  "level": "No panic and bounded loops for the DICOM date, time and date-time parsers, the textual tag parser, the explicit header decoders and PDU prefix reading, for ALL inputs of the stated lengths.",
-  "note": "file / collector / JSON text / JPEG / deflate / RLE / dump entry points, range parsers, data set readers on arbitrary streams and text-VR value readers are outside (third-party code or measured beyond budget)",
+  "engine": "K+M",
+  "technique": "bounded model checking (Kani/CBMC): Kani's panic / overflow / bounds checks and unwinding assertions on parsers and decoders fed every byte string of the listed sizes; symbolic execution of the MIR of the DICOM JSON element visitor with solver-chosen members",
+  "level": "No panic and bounded loops for the DICOM date, time and date-time parsers, the textual tag parser, the explicit header decoders and PDU prefix reading, for ALL inputs of the stated lengths. "
+           "DICOM JSON: for every sequence of up to 3 members of a data element object (any order, any combination), no panic call is reachable in the element visitor.",
+  "note": "file / collector / the rest of JSON text handling / JPEG / deflate / RLE / dump entry points, range parsers, data set readers on arbitrary streams and text-VR value readers are outside (third-party code or measured beyond budget)",
  },
  "C09": {
   "engine": "M",
